@@ -7,7 +7,11 @@ mkdir -p bin evidence replays
 (cd tools/extract && go build -o ../../bin/extract .)
 REPO=${VERIF_REPO:-/repo}
 ./bin/extract $REPO "$(pwd)/lean/Bolt/Gen"
-(cd lean && lake build Bolt boltmodel)
+# the model driver is needed by every check; the proofs are pre-built only to save time later:
+# each check rebuilds and audits its own modules and REPORTS a proof or regenerated fact that no
+# longer holds for the source it is pointed at, so a failure here must not stop the setup
+(cd lean && lake build boltmodel)
+(cd lean && lake build Bolt) || echo "setup: lake build Bolt reported errors; the checks will report them per property"
 [ "$REPO" != /repo ] && (cd harness && go mod edit -replace=go.etcd.io/bbolt=$REPO)
 cp $REPO/go.sum harness/go.sum
 (cd harness && go build -tags verif -o ../bin/vh .)
